@@ -179,6 +179,18 @@ func (k *KVStore) NewEntry() storage.Entry {
 	return entry.New()
 }
 
+// deleteSuperseded removes the versions of hkey held by the tables older than
+// the last one. Only the last table accepts writes, so a key must not stay
+// alive in the older ones once it is written again.
+func (k *KVStore) deleteSuperseded(hkey uint64) {
+	for i := len(k.tables) - 2; i >= 0; i-- {
+		if err := k.tables[i].Delete(hkey); err == nil {
+			// A key lives in one table at most.
+			break
+		}
+	}
+}
+
 // PutRaw sets the raw value for the given key.
 func (k *KVStore) PutRaw(hkey uint64, value []byte) error {
 	if uint64(len(value)) >= k.tableSize {
@@ -207,6 +219,7 @@ func (k *KVStore) PutRaw(hkey uint64, value []byte) error {
 			return err
 		}
 		// everything is ok
+		k.deleteSuperseded(hkey)
 		break
 	}
 
@@ -242,6 +255,7 @@ func (k *KVStore) Put(hkey uint64, value storage.Entry) error {
 		}
 
 		// everything is ok
+		k.deleteSuperseded(hkey)
 		break
 	}
 
